@@ -302,7 +302,9 @@ PROPS["C14"] = dict(
                "insertion that terminates normally leaves a well-formed map; C14_single_insertion_keeps_wf2: the same for the "
                "single-vertex entry point insert_vertex_on_edge, its own code path, with the kernel's freeness test as the only "
                "source of distinctness; C14_single_insertion_{boundary,inner}_images: the exact images after a successful "
-               "single insertion -- two consecutive segments, both sides glued segment by segment, every other image untouched)",
+               "single insertion -- two consecutive segments, both sides glued segment by segment, every other image untouched; "
+               "C14_single_insertion_position: the new vertex carries the point at the requested relative position (midpoint by "
+               "default) under the orbit-minimum identifier of the resulting map, every other coordinate slot untouched)",
     technique="Coq model of the kernel + correspondence + extracted Coq specification as per-run validator",
     families=[
         Family("kern-insert", "core2", r_kern("insert", 1500, 30000), 1, [(7, "insert_spec", INS_CLASSES)]),
